@@ -149,7 +149,7 @@ class _Call:
             return cand[0]
         if st == 2:
             return cand[-1]
-        i = ctx.src.draw(f"{self.tag}.next", 0, len(cand) - 1)
+        i = self.pool.src.draw(f"{self.tag}.next", 0, len(cand) - 1)
         return cand[i]
 
     def step(self):
@@ -183,7 +183,7 @@ class _Call:
         ctx = self.pool.ctx
         n = len(self.units)
         if self.style == 4 and 2 <= n <= 6:
-            self.pref = ctx.src.perm(f"{self.tag}.perm", n)
+            self.pref = self.pool.src.perm(f"{self.tag}.perm", n)
         elif self.style == 4:
             self.style = 3
 
@@ -287,8 +287,8 @@ class _IMapIter:
             return
         # random style
         if not c.exhausted:
-            c.pull(ctx.src.draw(f"{c.tag}.pull", 0, 2))
-        k = ctx.src.draw(f"{c.tag}.extra", 0, 2)
+            c.pull(c.pool.src.draw(f"{c.tag}.pull", 0, 2))
+        k = c.pool.src.draw(f"{c.tag}.extra", 0, 2)
         for _ in range(k):
             if not c.step():
                 break
@@ -307,7 +307,8 @@ class SimPool:
         self.ctx = ctx
         self.id = ctx.pool_seq
         ctx.pool_seq += 1
-        src = ctx.src
+        src = ctx.pool_src if ctx.pool_src is not None else ctx.src
+        self.src = src
         wmax = 3 if ctx.fork_mode else 16
         if processes is None:
             self.W = src.weighted(f"pool{self.id}.W", [(1, 2), (2, 3), (3, 2), (4, 1), (16, 1), (7, 1)][: (3 if ctx.fork_mode else 6)])
@@ -436,8 +437,8 @@ class SimPool:
             if st in (1, 2) or (c.pref is not None and self.eager):
                 c.run_all()
         elif st == 3:
-            c.pull(ctx.src.draw(f"{c.tag}.pull0", 0, 3))
-            for _ in range(ctx.src.draw(f"{c.tag}.run0", 0, 2)):
+            c.pull(self.src.draw(f"{c.tag}.pull0", 0, 3))
+            for _ in range(self.src.draw(f"{c.tag}.run0", 0, 2)):
                 if not c.step():
                     break
         return _IMapIter(c, ordered)
